@@ -50,6 +50,7 @@ pub enum M {
     OwnTup,
     OwnTup1,
     OwnVec,
+    OwnTup3,
     // a trait with a receiver-less provided fn before methods with unmock functions
     S0,
     S1,
@@ -118,6 +119,7 @@ pub const ALL_M: &[M] = &[
     M::OwnTup,
     M::OwnTup1,
     M::OwnVec,
+    M::OwnTup3,
     M::S0,
     M::S1,
     M::S2,
@@ -157,13 +159,14 @@ impl M {
             M::Lent => ("Lend", "lent", false, false, false, Recv::Ref, false),
             M::LendClone => ("Lend", "lend_clone", false, false, false, Recv::Ref, false),
             M::LendVia => ("Lend", "lend_via", false, true, false, Recv::Ref, false),
-            M::OwnSingle => ("Own", "own_single", false, false, false, Recv::Ref, false),
+            M::OwnSingle => ("Own", "own_single", false, false, true, Recv::Ref, false),
             M::OwnMulti => ("Own", "own_multi", false, false, false, Recv::Ref, false),
             M::OwnOpt => ("Own", "own_opt", false, false, false, Recv::Ref, false),
             M::OwnRes => ("Own", "own_res", false, false, false, Recv::Ref, false),
             M::OwnTup => ("Own", "own_tup", false, false, false, Recv::Ref, false),
             M::OwnTup1 => ("Own", "own_tup1", false, false, false, Recv::Ref, false),
             M::OwnVec => ("Own", "own_vec", false, false, false, Recv::Ref, false),
+            M::OwnTup3 => ("Own", "own_tup3", false, false, false, Recv::Ref, false),
             M::S0 => ("Skip", "s0", false, false, true, Recv::Ref, false),
             M::S1 => ("Skip", "s1", false, false, false, Recv::Ref, false),
             M::S2 => ("Skip", "s2", false, false, true, Recv::Ref, false),
@@ -273,6 +276,10 @@ pub struct PatternSpec {
     pub has_matcher: bool,
     /// response chain; all but the last quantifier are exact (`then()` needs an exact count)
     pub segs: Vec<Seg>,
+    /// true: the matcher is written with the real `matching!` macro (a fixed table of forms whose
+    /// accepted set is `pred`); no faults can be injected into such a matcher
+    #[serde(default)]
+    pub macro_form: bool,
 }
 
 fn yes() -> bool {
@@ -328,6 +335,8 @@ pub enum Special {
     OwnTup1 { id: u32 },
     /// -> Vec<Result<&u32, Tracked>> with one owned leaf, single use
     OwnVec { id: u32 },
+    /// -> (&u32, Tracked, Tracked): two owned leaves (ids id and id+1), single use
+    OwnTup3 { id: u32 },
 }
 
 #[derive(Serialize, Deserialize, Clone, Copy, Debug, PartialEq, Eq, Hash)]
@@ -473,6 +482,8 @@ pub enum OwnKind {
     Tup1,
     /// -> Vec<Result<&u32, Tracked>>, single use
     Vec,
+    /// -> (&u32, Tracked, Tracked), single use, two owned leaves
+    Tup3,
 }
 
 #[derive(Serialize, Deserialize, Clone, Copy, Debug, PartialEq, Eq, Hash)]
